@@ -19,15 +19,16 @@ type AggItem struct {
 }
 
 type C03Case struct {
-	Doc       map[string]any `json:"doc"`
-	Shape     string         `json:"shape"` // group | whole | groupagg
-	GroupCols []string       `json:"group_cols,omitempty"`
-	ShowCols  []string       `json:"show_cols,omitempty"` // grouping columns in the select list
-	Aggs      []AggItem      `json:"aggs"`
-	Star      bool           `json:"star,omitempty"`
-	Where     *sq.E          `json:"where,omitempty"`
-	Having    *sq.E          `json:"having,omitempty"` // aggregate calls appear as call nodes
-	SQL       string         `json:"sql"`
+	Doc       map[string]any    `json:"doc"`
+	GoTypes   map[string]string `json:"go_types,omitempty"` // numeric columns handed over as native Go values of that type
+	Shape     string            `json:"shape"`              // group | whole | groupagg
+	GroupCols []string          `json:"group_cols,omitempty"`
+	ShowCols  []string          `json:"show_cols,omitempty"` // grouping columns in the select list
+	Aggs      []AggItem         `json:"aggs"`
+	Star      bool              `json:"star,omitempty"`
+	Where     *sq.E             `json:"where,omitempty"`
+	Having    *sq.E             `json:"having,omitempty"` // aggregate calls appear as call nodes
+	SQL       string            `json:"sql"`
 }
 
 func init() {
@@ -111,6 +112,7 @@ func genC03(t *rapid.T) any {
 		rows = append(rows, row)
 	}
 	c := &C03Case{Doc: map[string]any{"t": rows}}
+	c.GoTypes = genGoTypes(t, append(append([]Col{}, sch.groupCols...), sch.valCols...), "gotypes")
 	c.Shape = rapid.SampledFrom([]string{"group", "group", "group", "whole", "whole", "groupagg"}).Draw(t, "shape")
 	// aggregates
 	na := rapid.IntRange(1, 5).Draw(t, "naggs")
@@ -441,7 +443,7 @@ func checkC03(c *C03Case) Result {
 
 	var first []any
 	for i := 0; i < 3; i++ {
-		out := Run(val.CopyMap(c.Doc), c.SQL, Opts{})
+		out := Run(typedDoc(c.Doc, map[string]map[string]string{"t": c.GoTypes}), c.SQL, Opts{})
 		res.Execs++
 		if !out.OK() {
 			res.Violation = fmt.Sprintf("%s\n  expected rows %s\n  got %s", c.SQL, val.JSON(want), out.Describe())
@@ -467,8 +469,8 @@ func checkC03(c *C03Case) Result {
 		gsql := csql + " GROUP BY " + strings.Join(c.GroupCols, ", ")
 		// grouped query needs a non-aggregate item unless shape groupagg is supported; use keys
 		gsql = strings.Replace(gsql, "SELECT COUNT(*) AS n", "SELECT "+c.GroupCols[0]+", COUNT(*) AS n", 1)
-		tot := Run(val.CopyMap(c.Doc), csql, Opts{})
-		grp := Run(val.CopyMap(c.Doc), gsql, Opts{})
+		tot := Run(typedDoc(c.Doc, map[string]map[string]string{"t": c.GoTypes}), csql, Opts{})
+		grp := Run(typedDoc(c.Doc, map[string]map[string]string{"t": c.GoTypes}), gsql, Opts{})
 		res.Execs += 2
 		if !tot.OK() || !grp.OK() || len(tot.Rows) != 1 {
 			res.Violation = fmt.Sprintf("conservation queries failed: %s -> %s ; %s -> %s", csql, tot.Describe(), gsql, grp.Describe())
